@@ -25,7 +25,7 @@ import c08_shim as S  # noqa: E402
 REPO = os.environ.get("REPO", "/repo")
 BUILD = os.environ.get("VERIF_BUILD_DIR", os.path.join(ROOT, "build"))
 OUT = os.path.join(os.environ.get("VERIF_OUT_DIR", os.path.join(ROOT, "out")), "C08")
-KNOWN = os.path.join(ROOT, "known_findings.json")
+KNOWN = os.environ.get("VERIF_KNOWN_FINDINGS", os.path.join(ROOT, "known_findings.json"))  # read-only; the override is for testing entries
 PAR = max(1, min(int(os.environ.get("VERIF_PAR", "6")), 16))
 PROP = "C08"
 Infra = S.Infra
@@ -206,6 +206,15 @@ def part_a(tier, seed, ev, rep):
             st["cut_at_allowed_alternative"] += 1
             cuts += 1
             continue
+        if not plain and (threads > 1 or v[0].get("what") == "hang"):
+            # several kernel threads: "did not return by itself" is decided with a patience interval; on a loaded
+            # machine confirm with a long one before reporting
+            rc2, out2, err2 = S.execute(bins[variant], text, False, patience_ms=1500)
+            v2 = S.compare(seqs[i][1], rc2, out2, False)
+            if v2 is None or v2[0] == "cut":
+                st["not_confirmed_under_load"] = st.get("not_confirmed_under_load", 0) + 1
+                continue
+            v, rc, out, err = v2, rc2, out2, err2
         st["failing"] += 1
         if plain:
             model_bad.append((i, v, text, out))
